@@ -50,7 +50,9 @@ let c15_table : (string * (Z.t list -> Z.t list option)) list = Model.[
   "interp", run_interp; "baryw", run_baryw; "interpolate", run_interpolate; "interp2", run_interp2;
   "zpoc", run_zpoc; "zpoc_l0", run_zpoc_l0; "cosetshifts", run_cosetshifts ]
 
-let tables = [ "c15", c15_table; "c13", c13_table; "c12", c12_table; "c14", c14_table; "c01", c01_table; "c16", c16_table; "plonk", c01_table ]
+let c05_table : (string * (Z.t list -> Z.t list option)) list = Model.[ "friverify", run_friverify ]
+
+let tables = [ "c05", c05_table; "c15", c15_table; "c13", c13_table; "c12", c12_table; "c14", c14_table; "c01", c01_table; "c16", c16_table; "plonk", c01_table ]
 
 let split_ws s = List.filter (fun x -> x <> "") (String.split_on_char ' ' s)
 
